@@ -250,6 +250,29 @@ def run(ctx, rep, tier):
                 res, m = B.solve("group:%s|%s|%s:%d" % (a, conn or "implicit", b, len(ctx_pre) + len(ctx_post)), r.assume, b_not(eq))
                 if res == z3.sat:
                     report(B, rep, "redundant-parentheses", model_string(m, [ctx_pre] + lp + [inner] + rp + [ctx_post]), reftext)
+    # redundant parentheses around the operands INSIDE a group, independently for each operand, so that an inner parenthesis stands
+    # directly against the group's own one on either side (`( ( A ) -o B )`, `( A -o ( ( B ) ) )`), alone and under `!` / after `-a`
+    pairs_in = [("-true", "-false")] if tier == "quick" else [("-true", "-false"), ("-name x", "! -print")]
+    for gi, (a, b) in enumerate(pairs_in):
+        for conn in ("", "-a", "-o", ","):
+            for ci_, ctx_pre in enumerate(("", "! ", "-name a -a ") if tier != "quick" else ("", "! ")):
+                tag = "in%d%s%d" % (gi, conn, ci_)
+                la, q1 = slot(["", "(", "( ", "( ("], "la" + tag)
+                ra, q2 = slot(["", ")", " )", ") )"], "ra" + tag)
+                lb, q3 = slot(["", "(", "( ", "( ("], "lb" + tag)
+                rb, q4 = slot(["", ")", " )", ") )"], "rb" + tag)
+                same = z3.And(z3.Int("sel_la" + tag) == z3.Int("sel_ra" + tag), z3.Int("sel_lb" + tag) == z3.Int("sel_rb" + tag))
+                spec = [ctx_pre + "( "] + la + [a] + ra + [" " + conn + " " if conn else " "] + lb + [b] + rb + [" )"]
+                reftext = "%s( %s )" % (ctx_pre, ("%s %s %s" % (a, conn, b)).replace("  ", " "))
+                r = B.parse(spec, extra_assume=[q1, q2, q3, q4, same])
+                ref = B.parse([reftext])
+                if not any(is_ok(v) for _, v in ref.alts):
+                    rep.inconclusive.append("reference spelling %r does not parse" % reftext)
+                    continue
+                eq = same_result(r.I, r.alts, ref.alts)
+                res, m = B.solve("inner-group:%s|%s|%s:%d" % (a, conn or "implicit", b, ci_), r.assume, b_not(eq))
+                if res == z3.sat:
+                    report(B, rep, "redundant-parentheses", model_string(m, spec), reftext)
     # chains of 3 (thorough: also 4) operands, every connector's spelling selected independently: the tree must not depend on which
     # connectors are written out
     chains = [["-true", "-name x", "-print"], ["-uid 1", "! -false", "-empty"]]
